@@ -869,3 +869,13 @@ func init() {
 	mutant("reader-releases-on-success", "readers-return-frame-or-error", "frameHeader.go", "	fr.maxLen = max\n\n	_, err := fr.ReadFrom(br)\n	if err != nil {", "	fr.maxLen = max\n\n	_, err := fr.ReadFrom(br)\n	if err == nil {")
 	mutant("reader-keeps-the-frame-with-the-error", "readers-return-frame-or-error", "frameHeader.go", "			frameHeaderPool.Put(fr)\n		}\n\n		fr = nil\n	}\n\n	return fr, err\n}\n\nfunc ReadFrameFromWithSize", "			frameHeaderPool.Put(fr)\n		}\n	}\n\n	return fr, err\n}\n\nfunc ReadFrameFromWithSize")
 }
+
+func init() {
+	mutant("data-kept-despite-bad-padding", "result-with-error-untouched", "data.go", "		payload, err = http2utils.CutPadding(payload, fr.Len())\n		if err != nil {", "		payload, err = http2utils.CutPadding(payload, fr.Len())\n		if err == nil {")
+	mutant("headers-kept-despite-bad-padding", "result-with-error-untouched", "headers.go", "		payload, err = http2utils.CutPadding(payload, len(payload))\n		if err != nil {", "		payload, err = http2utils.CutPadding(payload, len(payload))\n		if err == nil {")
+}
+
+func init() {
+	mutant("data-padded-without-the-flag", "serialize-essentials", "data.go", "		fr.SetFlags(\n			fr.Flags().Add(FlagPadded))\n		data.b = http2utils.AddPadding(data.b)", "		data.b = http2utils.AddPadding(data.b)")
+	mutant("data-flagged-without-padding", "serialize-essentials", "data.go", "			fr.Flags().Add(FlagPadded))\n		data.b = http2utils.AddPadding(data.b)\n", "			fr.Flags().Add(FlagPadded))\n")
+}
